@@ -8,7 +8,7 @@ DSL and the three manifest syntaxes.  Every definition goes through the REAL gen
 Coq model Reset.reset_result is evaluated on the REAL MIR, and a python transcription of the property text gives a third,
 independent expectation.  L2: accepted batches compiled once; `write(|_| ())` on every accessor against the recording
 mock and `FieldSet::new()` / `new_as_*()` through `Into<[u8; N]>`, compared with the model's constructors."""
-import collections, json, os, random, re, time
+import collections, json, os, random, re, shutil, time
 import vlib, adef, l2
 from checks import gen_common
 
@@ -20,7 +20,8 @@ RULE = ("sizes 1..128 x {LE,BE} x {LSB0,MSB0} x {integer,array} x {0, all ones i
         "name + size, byte literals of new()/new_as_*(), [u8;N], new_zero length, constructor handed to each accessor -- "
         "REAL generator vs Coq model (Reset.reset_result evaluated on the real MIR) vs python transcription of the property "
         "text. L2: compiled batches, bytes seen by the mock on write(|_|()) and Into<[u8;N]> of new()/new_as_*(). "
-        "distinct = distinct (size, byte order, bit order, form, value) tuples")
+        "distinct_nontrivial = distinct (size, byte order, bit order, form, value) tuples, not counting the all-zero value "
+        "of the right length and refs without override")
 
 BATCH = 150
 LIMITS = {"dsl": 2 ** 128 - 1, "json": 2 ** 64 - 1, "yaml": 2 ** 63 - 1, "toml": 2 ** 63 - 1}
@@ -378,7 +379,13 @@ def get_exe(ctx):
     if o:
         ctx.log("using gen_runner override", o, "repo", vlib.REPO)
         return o, None
-    return gen_common.build_gen_runner(ctx)
+    exe, err = gen_common.build_gen_runner(ctx)
+    if err:
+        return exe, err
+    # private copy: other checks rebuild the shared binary concurrently (possibly against a mutated /repo)
+    mine = os.path.join(ctx.work, "gen_runner_c08")
+    shutil.copy2(exe, mine)
+    return mine, None
 
 
 def evaluate(ctx, exe, defs, model_fn, tag):
@@ -511,7 +518,9 @@ def run_l2(ctx, exe, l2defs, hist):
         m = f"d{i}"
         r = gen_common.run_gen(ctx, exe, [{"id": m, "syntax": d["syntax"], "text": d["text"], "name": "Dev", "want": ["pretty"]}], tag="l2gen")[m]
         if r.get("status") != "ok" or not r.get("pretty"):
-            return 0, [("l2-generate", d["id"], r.get("status"), (r.get("message") or "")[:300])]
+            return 0, [("l2-bytes", {"generate": [d["id"], r.get("status"), (r.get("message") or "")[:300]],
+                                     "note": "the generator accepted this definition in L1 but not when asked for the pretty output",
+                                     "definition": describe(d)})]
         texts[m] = r["pretty"]
         mods.append((m, d["adef"]))
         expected += l2_expected(m, d["adef"], d["model"])
@@ -527,9 +536,15 @@ def run_l2(ctx, exe, l2defs, hist):
         diffs.append(("l2-run", rc, se[-800:]))
     if sorted(got) != sorted(expected):
         gs, es = collections.Counter(got), collections.Counter(expected)
-        miss = list((es - gs).elements())[:5]
-        extra = list((gs - es).elements())[:5]
-        diffs.append(("l2-bytes", {"expected_by_model_not_seen": miss, "seen_not_expected": extra}))
+        miss = sorted((es - gs).elements())
+        extra = sorted((gs - es).elements())
+        bad_mods = sorted(set(l.split(" ", 1)[0] for l in miss + extra), key=lambda m: len(l2defs[int(m[1:])]["text"]))
+        mod = bad_mods[0]                      # the smallest definition that shows a difference
+        d = l2defs[int(mod[1:])]
+        diffs.append(("l2-bytes", {"expected_by_model_not_seen": [l for l in miss if l.startswith(mod + " ")][:5],
+                                   "seen_not_expected": [l for l in extra if l.startswith(mod + " ")][:5],
+                                   "modules_with_differences": len(set(l.split(" ", 1)[0] for l in miss + extra)),
+                                   "definition": describe(d)}))
     hist["l2_modules"] = len(mods)
     hist["l2_lines"] = len(expected)
     if not diffs:
@@ -569,7 +584,8 @@ def run(ctx):
             hist["order_%s_%s" % (c.get("bo"), c.get("bito"))] += 1
             hist["class_" + re.sub(r"\d+", "", c["cls"])] += 1
             hist["expect_" + c["expect"]] += 1
-            distinct.add((c.get("size"), c.get("bo"), c.get("bito"), c.get("form"), json.dumps(c.get("value"))))
+            if c["cls"] != "zero" and c.get("form") != "ref-none":     # non-trivial: some declared, non-default content
+                distinct.add((c.get("size"), c.get("bo"), c.get("bito"), c.get("form"), json.dumps(c.get("value"))))
         hist["syntax_" + d["syntax"]] += 1
         hist["defs_" + d["kind"]] += 1
         hist["impl_" + d["impl"][0]] += 1
@@ -628,9 +644,14 @@ def run(ctx):
                         "implementation satisfies the python reading of the property text; the Coq model does not match the code (correspondence broken)"}
         vlib.violation(ctx, rep, no_input=(sev != "impl"))
     elif l2_diffs:
-        vlib.violation(ctx, {"what": "compiled output: bytes written by write(|_|()) / held by new() differ from the model's constructors",
-                             "l2": l2_diffs[:3], "crate": l2.crate_dir(ctx, "c08_l2"),
-                             "failing_input": {"note": "see crate; definitions are the modules d<i>.rs"}})
+        fi = {"note": "see crate"}
+        for x in l2_diffs:
+            if x[0] == "l2-bytes":
+                fi = dict(x[1]["definition"])
+                fi["l2"] = True
+        vlib.violation(ctx, {"what": "compiled output: bytes written by write(|_|()) / held by new()/new_as_*() differ from the model's constructors",
+                             "l2": [x if x[0] != "l2-bytes" else ("l2-bytes", {k: v for k, v in x[1].items() if k != "definition"}) for x in l2_diffs[:3]],
+                             "crate": l2.crate_dir(ctx, "c08_l2"), "failing_input": fi, "model_fn": model_fn})
     acc = hist["impl_ok"] / max(1, len(defs))
     samples = []
     for d in (defs[0], defs[len(defs) // 2], [x for x in defs if x["kind"] == "refs"][0]):
@@ -664,3 +685,9 @@ def replay(ctx, path):
     if d["impl"] != d["model"] or (d["spec"] is not None and not spec_agrees(d["spec"], d["impl"])):
         vlib.violation(ctx, {"failing_input": fi, "implementation": short(d["impl"]), "model": short(d["model"]),
                              "spec_from_property_text": short(d["spec"]), "replayed_from": path})
+    elif fi.get("l2") and d["impl"][0] == "ok" and d.get("adef"):
+        n, diffs = run_l2(ctx, exe, [d], collections.Counter())
+        ctx.log(f"L2: {n} lines compared, diffs: {short(diffs, 800)}")
+        if diffs:
+            vlib.violation(ctx, {"failing_input": fi, "l2": [x if x[0] != "l2-bytes" else ("l2-bytes", {k: v for k, v in x[1].items() if k != "definition"}) for x in diffs[:3]],
+                                 "replayed_from": path})
